@@ -34,6 +34,9 @@ def domain_of(prop):
     if prop == "C19":
         from . import fault
         return fault
+    if prop in ("C14", "C15"):
+        from . import saveload
+        return saveload
     if prop == "C16":
         from . import cs
         return cs
